@@ -557,3 +557,5 @@ MUTANTS = [
 """, 'C18-R4'),
 ]
 MUTANTS = [m for m in MUTANTS if m[4] != 'C18-NONE']
+
+EXPLANATION += ' Round 5: access point shutdown order (C09-R7) and the bounded NFC-DEP release (C04-R5) are obligations of this check (C18-R6).'
